@@ -34,6 +34,7 @@ var c19Facades = map[string]facadeDef{
 	"R":  {"Pp", "resource", "/r/{id}", []string{"G"}},
 	"Rr": {"", "resource", "/res", nil},
 	"Rq": {"Q", "resource", "", []string{"H"}},
+	"Qs": {"Ps", "prefix", "/q", nil}, // below a prefix that ends in '/': /p//q, texts are concatenated verbatim
 	// family 1: prefixes that end below one of two overlapping parameter siblings
 	"Pa": {"", "prefix", "/p/{a}/x/", nil},
 	"Pb": {"", "prefix", "/p/{b}x/", nil},
@@ -183,6 +184,10 @@ func c19Alphabet() []fstep {
 		{F: "Q", K: "remove", P: "/z", Ms: []string{"POST"}},
 		{F: "R", K: "remove"},
 		{F: "R", K: "remove", Ms: []string{"GET"}},
+		{F: "R", K: "remove", Ms: []string{"HEAD", "OPTIONS"}}, // names that cannot be removed by hand: nothing happens
+		{F: "Pp", K: "remove", P: "/y", Ms: []string{"OPTIONS"}},
+		{F: "Qs", K: "get", P: "/z"},
+		{F: "Qs", K: "url", P: "/z"},
 		{F: "Pp", K: "clean"},
 		{F: "Ps", K: "clean"},
 		{F: "Pi", K: "clean"},
@@ -335,7 +340,7 @@ func applyPlain(b *Router, s fstep) (string, any, bool) {
 var c19Probes = func() []hv.Req {
 	var qs []hv.Req
 	paths := []string{"/p/a1", "/p/a2", "/p/c1", "/p/y", "/p/zz", "/py", "/p/7/x", "/p/7", "p/y", "/p/q/z", "/p", "/p/r/5", "/res", "/p/q", "/p/q/", "/nowhere",
-		"/p/1/x", "/p/1/x/c", "/p/1x/c", "/p/1/x/x", "/p/1/x/x/c", "/p/1/x/xd", "/p/1/xd", "/p/1"}
+		"/p/1/x", "/p/1/x/c", "/p/1x/c", "/p/1/x/x", "/p/1/x/x/c", "/p/1/x/xd", "/p/1/xd", "/p/1", "/p//q/z", "/p/q/z"}
 	for _, p := range paths {
 		for _, m := range []string{"GET", "POST", "DELETE", "PUT", "PATCH", "OPTIONS", "BOGUS", "HEAD"} {
 			qs = append(qs, hv.Req{Method: m, Path: p})
